@@ -301,6 +301,101 @@ theorem table_sections :
 `get_config_value_type` on the probed keys -/
 theorem table_probes_agree : probes.all (·.agrees tbl) = true := by decide +kernel
 
+/-! ## 6. histories: feature registry, repeated `store_metadata`, configuration-file lines -/
+
+theorem registered_after_reg (r : List Str) (n : Str) : n ∈ regStep r (.reg n) := by
+  simp only [regStep, List.contains_eq_mem, decide_eq_true_eq]
+  split
+  · assumption
+  · simp
+
+theorem not_registered_after_dereg (r : List Str) (n : Str) : n ∉ regStep r (.dereg n) := by
+  simp [regStep]
+
+/-- a feature is known iff it is built in or currently registered -/
+theorem feature_known_iff (t : Tbl) (reg : List Str) (n : Str) :
+    (t.withFeats reg).featExists n = (t.featExists n || reg.contains n) :=
+  featExists_withFeats t reg n
+
+/-- **No history dependence**: whatever was registered, deregistered or asked before, a query is
+answered as by a fresh table with the current registry. -/
+theorem runHist_append_query (t : Tbl) (ops : List HOp) (reg : List Str) (sec key : Str)
+    (v : PyVal) :
+    t.runHist reg (ops ++ [.q sec key v]) =
+      t.runHist reg ops ++ [(t.withFeats ((regOps ops).foldl regStep reg)).setitem sec [] key v] := by
+  induction ops generalizing reg with
+  | nil => rfl
+  | cons op rest ih =>
+    cases op with
+    | r o => simpa [Tbl.runHist, regOps] using ih (regStep reg o)
+    | q s k w => simp [Tbl.runHist, regOps, ih reg]
+
+/-- lines whose value is empty after stripping are skipped -/
+theorem fileLine_empty_skipped (t : Tbl) (sec : Str) (d : Dict) (key raw : Str)
+    (h : cleanText raw = []) : t.fileLine sec d key raw = .ok (d, []) := by
+  simp [Tbl.fileLine, h]
+
+/-- **Configuration-file line = item assignment of the cleaned text**, for values made of
+arbitrary characters (`cleanText`: cut at `#`, blanks and quotes stripped at the ends). -/
+theorem fileLine_agrees (t : Tbl) (sec : Str) (d : Dict) (key raw : Str) (w : PyVal)
+    (w0 : List Warn) (hv : t.verify sec (lower key) = .ok (true, w0)) (ht : cleanText raw ≠ [])
+    (hw1 : w ≠ sc (.str [])) (hw2 : w ≠ sc .none)
+    (hn : t.normalise sec key (sc (.str (cleanText raw))) = .ok w) :
+    (∃ d' ws, t.setitem sec d key (sc (.str (cleanText raw))) = .ok (d', ws) ∧
+      d'.get? key = some w) ∧
+    (∃ d' ws, t.fileLine sec d key raw = .ok (d', ws) ∧ d'.get? key = some w) := by
+  have := file_route_agrees t sec d key (cleanText raw) w w0 hv ht hw1 hw2 hn
+  simpa [Tbl.fileLine, ht] using this
+
+/-- strings without `#` and without blank/quote at either end are read back verbatim
+(`save` → `load` is a fixed point on them) -/
+theorem fileLine_plain_verbatim (s : Str) (h : Plain s) : cleanText s = s :=
+  cleanText_plain s h
+
+/-- several `store_metadata` calls are one call with the concatenated entries -/
+theorem storeMeta_append (t : Tbl) (a : Attrs) (ws1 ws2 : List (Str × Str × PyVal)) :
+    t.storeMeta a (ws1 ++ ws2) =
+      match t.storeMeta a ws1 with
+      | .error e => .error e
+      | .ok a' => t.storeMeta a' ws2 := by
+  induction ws1 generalizing a with
+  | nil => rfl
+  | cons e r ih =>
+    obtain ⟨s, k, v⟩ := e
+    simp only [List.cons_append, Tbl.storeMeta]
+    cases t.storedValue s k v with
+    | error e => rfl
+    | ok w => exact ih _
+
+/-- **Last write wins**: after any successful history of `store_metadata` entries every
+attribute holds the (normalised, type-mapped) value written last, untouched keys keep theirs. -/
+theorem store_last_wins (t : Tbl) (ws : List (Str × Str × PyVal)) (a a' : Attrs)
+    (h : t.storeMeta a ws = .ok a') (K : Str × Str) :
+    a'.get? K = match lastWrite ws K with
+      | some v => (t.storedValue K.1 K.2 v).toOption
+      | none => a.get? K := by
+  induction ws generalizing a with
+  | nil =>
+    simp only [Tbl.storeMeta] at h
+    cases h; rfl
+  | cons e r ih =>
+    obtain ⟨s, k, v⟩ := e
+    simp only [Tbl.storeMeta] at h
+    cases hs : t.storedValue s k v with
+    | error e => simp [hs] at h
+    | ok w =>
+      simp only [hs] at h
+      have := ih _ h
+      simp only [lastWrite]
+      cases hl : lastWrite r K with
+      | some x => simpa [hl] using this
+      | none =>
+        simp only [hl] at this ⊢
+        by_cases hk : (s, k) = K
+        · subst hk
+          simp [this, attrs_get_put_same, hs, Except.toOption]
+        · simp [hk, this, attrs_get_put_other _ _ _ _ hk]
+
 /-! ## non-vacuity -/
 
 example : conv .fbool (sc (.str [84, 114, 117, 101])) = .ok (sc (.bool true)) := by decide
@@ -314,5 +409,10 @@ example : (tbl.setitem [115, 101, 116, 117, 112] [] [73, 68, 69, 78, 84, 73, 70,
 example : ∃ ws, tbl.setitem [115, 101, 116, 117, 112] [] [120] (sc (.int 1)) = .ok ([], ws)
     ∧ ws ≠ [] := ⟨[.unknownKey], by decide +kernel, by decide⟩
 example : rows.length > 100 := by decide +kernel
+
+example : cleanText [32, 39, 97, 59, 98, 39, 32, 35, 120] = [97, 59, 98] := by decide
+example : registry [.reg [118], .reg [119], .dereg [118]] = [[119]] := by decide
+example : lastWrite [([117], [107], sc (.int 1)), ([117], [107], sc (.int 2))] ([117], [107])
+    = some (sc (.int 2)) := by decide
 
 end DclabModel.C11
